@@ -32,16 +32,15 @@ func (rl *RangeList) IsSlotInList(key string) bool {
 		return false
 	}
 
-	left, right := 0, len(rl.list)-1
-	for left <= right {
-		mid := left + (right-left)/2
-		if rl.list[mid].Left <= keySlot {
-			if keySlot <= rl.list[mid].Right {
-				return true
-			}
-			left = mid + 1
-		} else {
-			right = mid - 1
+	// The list is sorted by Left only; ranges may overlap or nest, so every range
+	// starting at or before the slot has to be looked at (a binary search on Left
+	// misses e.g. slot 50 in [0,100],[10,20],[30,40]).
+	for _, r := range rl.list {
+		if r.Left > keySlot {
+			break
+		}
+		if keySlot <= r.Right {
+			return true
 		}
 	}
 	return false
